@@ -1006,7 +1006,7 @@ func TestC04RemoteReader(t *testing.T) {
 			}
 			doIter([]byte{}, len(keys)+1)
 			// after local writes the tree may refuse to merge a fetched subtree into a modified one (an error, allowed)
-			if errs != before && !wrote {
+			if errs != before && !wrote && !writeFailed {
 				fail("remote-poisoned", "with an honest peer and sufficient cache the reader still fails (%d errors) after earlier corrupt responses", errs-before)
 			}
 			honestAfter = true
